@@ -47,6 +47,10 @@ pub struct C05 {
     /// the consumer calls next() twice more after the end of the stream
     #[serde(default)]
     pub poll_after_end: bool,
+    /// Some(window): demand-driven input - item i is produced only after the consumer has
+    /// received item i - window (window 1: strictly one at a time)
+    #[serde(default)]
+    pub closed_loop: Option<usize>,
 }
 
 pub fn f_val(x: u64) -> u64 {
@@ -92,6 +96,30 @@ pub struct Src {
     pub delay: Arc<Vec<u32>>,
     /// report an exact size_hint like a Vec or a range would (the default iterator hint is (0, None))
     pub hinted: bool,
+    /// demand-driven input: item i only becomes available once the consumer has received
+    /// `gate.0` >= i + 1 - window outputs (a closed loop; None = always available)
+    pub gate: Option<(Arc<Gate>, usize)>,
+}
+
+/// what the consumer has seen so far + the task that waits for it (at most one: the ticket
+/// lock is held while the upstream blocks)
+pub struct Gate {
+    pub seen: std::sync::atomic::AtomicUsize,
+    pub waiter: std::sync::atomic::AtomicU32,
+}
+
+impl Gate {
+    pub fn new() -> Self {
+        Gate { seen: std::sync::atomic::AtomicUsize::new(0), waiter: std::sync::atomic::AtomicU32::new(u32::MAX) }
+    }
+    /// consumer side: one more output seen
+    pub fn advance(&self) {
+        self.seen.fetch_add(1, std::sync::atomic::Ordering::SeqCst);
+        let w = self.waiter.swap(u32::MAX, std::sync::atomic::Ordering::SeqCst);
+        if w != u32::MAX {
+            verif_rt::timed::wake(w);
+        }
+    }
 }
 
 impl Iterator for Src {
@@ -110,6 +138,20 @@ impl Iterator for Src {
             return None;
         }
         let i = self.next;
+        if let Some((seen, window)) = &self.gate {
+            // block (the ticket lock is held, as it would be for any slow upstream) until the
+            // consumer has seen enough of the earlier outputs
+            let need = (i + 1).saturating_sub(*window);
+            let gate = seen.clone();
+            verif_rt::timed::wait_until(verif_rt::timed::FOREVER, move || {
+                if gate.seen.load(std::sync::atomic::Ordering::SeqCst) >= need {
+                    true
+                } else {
+                    gate.waiter.store(rt::current_task(), std::sync::atomic::Ordering::SeqCst);
+                    false
+                }
+            });
+        }
         self.next += 1;
         let d = self.delay.get(i).copied().unwrap_or(0);
         if d > 0 {
@@ -192,7 +234,10 @@ impl Scenario for C05 {
         let stall = if rng.chance(0.3) { delays(&mut rng, n) } else { vec![0; n] };
         let hinted = rng.chance(0.5);
         let poll_after_end = rng.chance(0.3);
-        C05 { run_seed, mode: SMode::draw(&mut rng), n, w, shape, fn_delay, src_delay, stall, hinted, poll_after_end }
+        // only for the plain pipe: with a buffer or a second stage in between, "seen by the
+        // consumer" lags behind by construction
+        let closed_loop = if shape == Shape::Pipe && rng.chance(0.15) { Some(rng.usize(1, 3)) } else { None };
+        C05 { run_seed, mode: SMode::draw(&mut rng), n, w, shape, fn_delay, src_delay, stall, hinted, poll_after_end, closed_loop }
     }
 
     fn run_seed(&self) -> u64 {
@@ -249,6 +294,11 @@ impl Scenario for C05 {
             c.hinted = false;
             v.push(c);
         }
+        if self.closed_loop.is_some() {
+            let mut c = self.clone();
+            c.closed_loop = None;
+            v.push(c);
+        }
         if self.mode != SMode::Uniform {
             let mut c = self.clone();
             c.mode = SMode::Uniform;
@@ -285,7 +335,14 @@ impl Scenario for C05 {
                 rt::log(Kind::FnEnd, x, 1);
                 g_val(x)
             });
-            let src = Src { next: 0, n: sc.n, delay: Arc::new(sc.src_delay.clone()), hinted: sc.hinted };
+            let seen = Arc::new(Gate::new());
+            let src = Src {
+                next: 0,
+                n: sc.n,
+                delay: Arc::new(sc.src_delay.clone()),
+                hinted: sc.hinted,
+                gate: sc.closed_loop.map(|w| (seen.clone(), w)),
+            };
             let mut it: Box<dyn Iterator<Item = u64>> = match sc.shape {
                 Shape::Pipe => Box::new(src.pipe(f, sc.w)),
                 Shape::PipeBuffered(b) => Box::new(src.pipe(f, sc.w).buffered(b)),
@@ -317,6 +374,7 @@ impl Scenario for C05 {
             while let Some(v) = it.next() {
                 rt::log(Kind::Recv, k as u64, v);
                 res2.lock().unwrap().push(v);
+                seen.advance();
                 let d = sc.stall.get(k).copied().unwrap_or(0);
                 if d > 0 {
                     rt::sleep_ticks(d as u64);
